@@ -148,7 +148,14 @@ def run(
                 map(lambda f: ["--config", str(f)], yaml_files)
             )
         )
-        command.extend(map(str, files_to_analyze or [execution_context.directory]))
+        targets = list(files_to_analyze or [])
+        if targets:
+            # a file selected earlier in the run may be gone by now and semgrep
+            # fails the whole scan when a listed target does not exist
+            targets = [target for target in targets if Path(target).exists()]
+            if not targets:
+                return InternalSemgrepResultSet()
+        command.extend(map(str, targets or [execution_context.directory]))
         logger.debug("semgrep command: `%s`", " ".join(command))
         call = subprocess.run(
             command,
